@@ -25,12 +25,7 @@ func (m *Module) Init(s *models.Session, p *models.Participant) {
 	m.currentSession = s
 	m.currentParticipant = p
 
-	state, ok := s.ModuleState(m.Name())
-	if !ok {
-		state = &State{}
-		s.SetModuleState(m.Name(), state)
-	}
-	m.state = state.(*State)
+	m.state = s.LoadOrStoreModuleState(m.Name(), &State{}).(*State)
 }
 
 func (m *Module) HandleMsg(ctx context.Context, respond hwebsocket.ResponseSender, msg hwebsocket.Msg) error {
